@@ -503,7 +503,8 @@ def injected_schedules(rng, answers, p, singles=10, bad=True):
     injected at call indexes of block flushes -- first call of a flush, after partial progress, last call, anywhere; bursts of
     2 / 16 / 17 / 18 / 40 interruptions after partial progress; every call interrupted once (> 16 interruptions in total
     during one flush as soon as a flush takes > 16 calls), every call interrupted twice, random interruptions; and (bad)
-    a zero-length write / hard error at a call index. -> [(kind, tag, answers)], kind in benign | z | h"""
+    a zero-length write / hard error (kind Other and two more kinds, see bad_answers) at a call index.
+    -> [(kind, tag, answers[, index of the bad answer])], kind in benign | z | h | (h KIND)"""
     total = p["calls"][-1] if p["calls"] else p["built_calls"]
     c0 = p["built_calls"]
     fl = flush_ranges(p)
@@ -532,7 +533,7 @@ def injected_schedules(rng, answers, p, singles=10, bad=True):
     out.append(("benign", "every-call-interrupted-twice", base[:c0] + [x for a in base[c0:] for x in ("i", "i", a)]))
     out.append(("benign", "random-interruptions", [x for a in base for x in (["i"] * rng.choice([0, 0, 1, 1, 2, 5]) + [a])]))
     if bad:
-        for kind in ("z", "h"):
+        for kind in ["z", "h"] + rng.sample(bad_answers(rng)[2:], 2):
             qs = {rng.randrange(0, total), rng.randrange(c0, total)}
             s, e = rng.choice(fl)
             qs.add(min(s + 1, e - 1))
@@ -540,7 +541,7 @@ def injected_schedules(rng, answers, p, singles=10, bad=True):
                 pre = base[:q]
                 if rng.random() < 0.3:
                     pre = [x for a in pre for x in (["i"] if rng.random() < 0.3 else []) + [a]]
-                out.append((kind, "%s@%d" % (kind, len(pre)), pre + [kind, "(a 1000000)"]))
+                out.append((kind, "%s@%d" % (kind.strip("()").replace(" ", "-"), len(pre)), pre + [kind, "(a 1000000)"], len(pre)))
     return out
 
 def sized_history(rng, k):
@@ -576,12 +577,13 @@ def scheduled_runs(rng, cases, n_inject_bases=3, bad=True, singles=10, chop_head
 def scheduled_runs_from(rng, cases, specs, n_inject_bases=3, bad=True, singles=10):
     """scheduled_runs with the benign base schedules given: specs = [(case index, tag, vectored, answers)]"""
     runs = []
-    def mk(ci, kind, tag, v, answers):
+    def mk(ci, kind, tag, v, answers, bad_at=None):
         c = cases[ci]
         sx = sched_sx(v, answers)
         line = with_start(c.get("start"), cw_line(c["h"], c["codec"], c["bsz"], sx, c["meta"], c["ops"]))
         mline = cw_line(c["h"], c["codec"], c["bsz"], sx, c["meta"], c["ops"], with_json=c["json"]) if c["codec"] == "null" else None
-        return {"ci": ci, "kind": kind, "tag": tag, "vectored": v, "answers": answers, "sched": sx, "line": line, "mline": mline}
+        return {"ci": ci, "kind": kind, "tag": tag, "vectored": v, "answers": answers, "sched": sx, "line": line, "mline": mline,
+                "bad_at": bad_at}
     bases = [mk(ci, "benign", tag, v, answers) for ci, tag, v, answers in specs]
     for r, res in zip(bases, C.run_parallel(C.AVRODRIVE, [r["line"] for r in bases])):
         r["res"], r["pi"] = res, parse_cw(res)
@@ -602,8 +604,8 @@ def scheduled_runs_from(rng, cases, specs, n_inject_bases=3, bad=True, singles=1
         while len(pick) < n_inject_bases and rest:
             pick.append(rest.pop(rng.randrange(len(rest))))
         for r in pick[:n_inject_bases]:
-            for kind, tag, answers in injected_schedules(rng, r["answers"], r["pi"], singles=singles, bad=bad):
-                inj.append(mk(ci, kind, "%s/%s" % (r["tag"], tag), r["vectored"], answers))
+            for kind, tag, answers, *at in injected_schedules(rng, r["answers"], r["pi"], singles=singles, bad=bad):
+                inj.append(mk(ci, kind, "%s/%s" % (r["tag"], tag), r["vectored"], answers, at[0] if at else None))
     for r, res in zip(inj, C.run_parallel(C.AVRODRIVE, [r["line"] for r in inj])):
         r["res"], r["pi"] = res, parse_cw(res)
     runs.extend(inj)
@@ -634,3 +636,214 @@ def run_model(lines):
     """the extracted model / reference parser on long inputs: run with a large stack (they recurse along the bytes)"""
     import codecloop
     return codecloop.run_model(lines, jobs=16)
+
+# ---------------------------------------------------------------- a sink that refuses one write, then works again (C06, C15, C16)
+# One bad answer -- a zero-length write or a hard error of some kind other than Interrupted -- at a call index of a block
+# flush, after which the sink works again, and a caller that KEEPS USING the writer (retries finish_block, serializes on,
+# calls into_inner). The writer keeps the finished block pending (Container.v: w_pending stays Some on the error path of
+# flush_finished, the buffer is not cleared) and re-sends it FROM ITS START at the beginning of the next call.
+#  * the writer model under the same schedule says what every later call returns and what the sink holds (null codec);
+#  * when the refused call was the first sink call of the block's flush (no byte of the block accepted: a clean refusal) the
+#    property itself decides: every later call that returns Ok leaves a complete valid file holding a prefix of the values
+#    (all of them after finish_block / into_inner / drop), nothing lost, duplicated or glued into another block.
+HARD_KINDS = ["other", "wouldblock", "timedout", "brokenpipe", "writezero", "unexpectedeof", "permissiondenied", "connectionreset",
+              "connectionaborted", "notconnected", "invalidinput", "invaliddata", "outofmemory", "unsupported", "alreadyexists",
+              "notfound", "addrinuse"]
+
+def bad_answers(rng, n_random=1):
+    """answers of a sink that are failures: zero-length write, hard error (plain h = kind Other) and hard errors of named
+    kinds -- WouldBlock and TimedOut always (the kinds a non-blocking / timing-out sink reports), others at random"""
+    return ["z", "h", "(h wouldblock)", "(h timedout)"] + ["(h %s)" % k for k in rng.sample(HARD_KINDS, n_random)]
+
+def retry_ops(rng, h, allow_push=True, end=None):
+    """a history whose caller goes on after every call: each serialize / push is followed by 0..2 finish_block calls (the
+    second one is a retry when the first got the sink's refusal, a no-op otherwise), the history ends with finish_block
+    (twice) and into_inner / drop / nothing. Canonical presentations, no failing values. -> (ops, expected)"""
+    ops, expected = [], []
+    for i, s in enumerate(h.spec):
+        if allow_push and rng.random() < 0.2:
+            ops.append(("push", "(push %s 1)" % s["canon"], [i]))
+        else:
+            ops.append(("ser", "(ser %s)" % s["present"], [i]))
+        expected.append(i)
+        for _ in range(rng.choice([0, 0, 1, 2, 2])):
+            ops.append(("finish", "finish"))
+    for _ in range(rng.choice([0, 1, 2, 2])):
+        ops.append(("finish", "finish"))
+    e = end if end is not None else rng.choice(["into_inner", "into_inner", "drop", "none"])
+    if e != "none":
+        ops.append((e, e))
+    return ops, expected
+
+def refusal_schedules(rng, answers, p, max_flushes=5, kinds=None):
+    """schedules derived from a benign one (`answers`) whose run on the crate is `p` (sink calls per writer call): ONE bad
+    answer at a call index of a block flush -- the first sink call of a writer call that flushes (clean refusal), the
+    second, the last, a random one -- and behind it the sink works again: it goes on as the benign schedule would have
+    (same partial writes, shifted by one call) or accepts everything. -> [(answer, tag, answers, index of the bad answer)]"""
+    total = p["calls"][-1] if p["calls"] else p["built_calls"]
+    fl = flush_ranges(p)
+    if not fl:
+        return []
+    base = expand(answers, total + 2)
+    kinds = kinds or bad_answers(rng)
+    out = []
+    pick = fl if len(fl) <= max_flushes else [fl[0], fl[-1]] + rng.sample(fl[1:-1], max_flushes - 2)
+    for (s, e) in pick:
+        qs = [("first", s)]
+        if e - s > 1:
+            qs.append(rng.choice([("second", s + 1), ("last", e - 1), ("mid", rng.randrange(s, e))]))
+        for where, q in qs:
+            for bad in rng.sample(kinds, 2 if where == "first" else 1):
+                after = rng.choice(["same", "all"])
+                tail = base[q:] if after == "same" else ["(a 1000000)"]
+                out.append((bad, "%s@%s-call-of-flush(%d)/then-%s" % (bad.strip("()").replace(" ", "-"), where, q, after), base[:q] + [bad] + tail, q))
+    return out
+
+def refusal_runs(rng, cases, n_bases=3, max_flushes=5):
+    """cases as for scheduled_runs (ops from retry_ops). Benign bases: accept-everything (gathering / default
+    write_vectored), k bytes per call for a small k, a k ending a gathering call inside a block; then refusal_schedules of each;
+    crate and (null codec) writer model under the same schedules. -> runs (dicts as scheduled_runs_from, + bad_at)"""
+    specs = []
+    for ci, c in enumerate(cases):
+        blocks = file_blocks(c["bp"]["sink"], c["bp"]["built"])
+        inside = [k for k in range(4, 49) if any(h < k < h + b for h, b in blocks)]
+        cand = [("all", 1, [HDR_ONE]), ("all", 0, [HDR_ONE]), ("k%d" % 1, rng.randint(0, 1), [HDR_ONE, "(a 1)"]),
+                ("k3", rng.randint(0, 1), [HDR_ONE, "(a 3)"])]
+        if inside:
+            k = rng.choice(inside)
+            cand.append(("k%d" % k, 1, [HDR_ONE, "(a %d)" % k]))
+        k = rng.randint(2, 48)
+        cand.append(("k%d" % k, rng.randint(0, 1), [HDR_ONE, "(a %d)" % k]))
+        first = cand[:2]
+        rng.shuffle(first)
+        rest = cand[2:]
+        rng.shuffle(rest)
+        for tag, v, answers in ([first[0]] + rest)[:n_bases]:
+            specs.append((ci, tag, v, answers))
+    def mk(ci, kind, tag, v, answers, bad_at=None):
+        c = cases[ci]
+        sx = sched_sx(v, answers)
+        line = with_start(c.get("start"), cw_line(c["h"], c["codec"], c["bsz"], sx, c["meta"], c["ops"]))
+        mline = cw_line(c["h"], c["codec"], c["bsz"], sx, c["meta"], c["ops"], with_json=c["json"]) if c["codec"] == "null" else None
+        return {"ci": ci, "kind": kind, "tag": tag, "vectored": v, "answers": answers, "sched": sx, "line": line, "mline": mline,
+                "bad_at": bad_at}
+    bases = [mk(ci, "benign", tag, v, answers) for ci, tag, v, answers in specs]
+    for r, res in zip(bases, C.run_parallel(C.AVRODRIVE, [r["line"] for r in bases])):
+        r["res"], r["pi"] = res, parse_cw(res)
+    runs = []
+    for r in bases:
+        if r["pi"] and not r["pi"].get("build_err") and r["pi"].get("calls"):
+            for bad, tag, answers, q in refusal_schedules(rng, r["answers"], r["pi"], max_flushes=max_flushes):
+                runs.append(mk(r["ci"], bad, "%s/%s" % (r["tag"], tag), r["vectored"], answers, q))
+    for r, res in zip(runs, C.run_parallel(C.AVRODRIVE, [r["line"] for r in runs])):
+        r["res"], r["pi"] = res, parse_cw(res)
+    ml = [r for r in runs if r["mline"] is not None]
+    for r, rm in zip(ml, run_model([r["mline"] for r in ml])):
+        r["rm"] = rm
+    for r in runs:
+        r.setdefault("rm", None)
+    return runs
+
+def judge_refusals(runs, cases, violations, diffs, dist, surfaces=True, clip=lambda s: s):
+    """verdicts on refusal_runs (see the section comment). cases[ci] needs h, ops, codec, bp."""
+    q = []
+    for r in runs:
+        c = cases[r["ci"]]
+        h, ops, bp, pi = c["h"], c["ops"], c["bp"], r["pi"]
+        line = clip(r["line"])
+        sink_kind = "%s, %s write_vectored" % (r["tag"], "gathering" if r["vectored"] else "default")
+        if pi is None:
+            violations.append({"impl_case": line, "what": "crash under a sink that refuses one write (%s)" % sink_kind, "impl": r["res"][:300]})
+            continue
+        d = model_vs_run(r)
+        if d:
+            d["what"] = "writer model and crate differ when the sink refuses one write and then works again (%s): outcomes per call / sink" % sink_kind
+            diffs.append(d)
+        if pi.get("build_err") or not pi.get("calls"):
+            continue
+        p = r["bad_at"]
+        calls = [pi["built_calls"]] + pi["calls"]
+        j = next((x for x in range(1, len(calls)) if calls[x - 1] < p + 1 <= calls[x]), None)
+        if j is None:
+            dist["refusal/never-reached"] += 1
+            continue
+        oj = j - 1                                  # index of the writer call that received the bad answer
+        kindj = ops[oj][0]
+        dist["refusal/%s/received-by-%s" % (r["kind"].strip("()").split()[-1], kindj)] += 1
+        if pi["ops"][oj][0] == "ok" and surfaces and kindj != "drop":
+            violations.append({"impl_case": line, "what": "call %d ('%s') received '%s' from the sink (sink call %d) but returned Ok (%s)" % (oj, kindj, r["kind"], p, sink_kind),
+                               "impl": r["res"][:400]})
+            continue
+        if kindj in ("into_inner", "drop"):
+            continue                                # the writer is gone: what its Drop did is the model's business
+        lf = pi["ops"][oj][1]
+        ends, pos = {bp["built"]}, bp["built"]
+        for hl, dl in file_blocks(bp["sink"], bp["built"]):
+            pos += hl + dl + 16
+            ends.add(pos)
+        clean = lf in ends and pi["sink"][:lf] == bp["sink"][:lf]
+        dist["refusal/%s" % ("clean (no byte of the block accepted)" if clean else "after part of the block")] += 1
+        if not clean:
+            continue
+        # values whose calls returned Ok, and the same + the value of the refused call (serialized into the pending block before
+        # the flush failed: the writer model keeps it; a caller who got Err may not count on it) -- either list is accepted
+        lw, lo = [], []
+        seen = set()
+        for oi, ((kind, _sx, *vals), (res, ln)) in enumerate(zip(ops, pi["ops"])):
+            if kind in ("ser", "push") and (res == "ok" or oi == oj):
+                lw.extend(vals[0])
+                if res == "ok":
+                    lo.extend(vals[0])
+            if oi > oj and res == "ok":
+                flush = kind in ("finish", "into_inner", "drop")
+                if (ln, flush, len(lw)) in seen:
+                    continue
+                seen.add((ln, flush, len(lw)))
+                q.append((r, oi, kind, ln, list(lw), list(lo), flush, sink_kind))
+    if not q:
+        return 0
+    fam_of = lambda r: codec_family(cases[r["ci"]]["codec"])
+    res_cr = C.run_parallel(C.AVRODRIVE, ["cr %s slice any %d" % (C.hx(r["pi"]["sink"][:ln]), len(lw) + 6) for (r, oi, kind, ln, lw, lo, fl, sk) in q])
+    res_fp = run_model(["fileparse " + C.hx(r["pi"]["sink"][:ln]) for (r, oi, kind, ln, lw, lo, fl, sk) in q])
+    dec = BlockDecoder()
+    fps = [parse_fileparse(x) for x in res_fp]
+    for (r, *_), fp in zip(q, fps):
+        for cnt, d in (fp["blocks"] if fp else []):
+            dec.want(fam_of(r), d)
+    dec.flush()
+    flagged = set()
+    for (r, oi, kind, ln, lw, lo, flush, sink_kind), rcr, fp in zip(q, res_cr, fps):
+        if id(r) in flagged:
+            continue
+        h = cases[r["ci"]]["h"]
+        line = clip(r["line"])
+        where = "after call %d ('%s' returned Ok, %d bytes in the sink; the sink refused one write of a finished block earlier and works again: %s)" % (oi, kind, ln, sink_kind)
+        pr = parse_cr(rcr)
+        what = None
+        if fp is None:
+            what = "the sink does not hold a valid container file (reference parser) " + where
+        elif pr.get("open_err") or "items" not in pr:
+            what = "the sink contents are not a readable file " + where
+        else:
+            alts = []
+            for L in (lw, lo):
+                ok, k, why = values_prefix_then_eof(pr["items"], [h.spec[i]["dany"] for i in L], flush)
+                cnt = sum(bc for bc, _ in fp["blocks"])
+                if ok:
+                    pls = [dec.get(fam_of(r), d)[0] for _, d in fp["blocks"]]
+                    if any(bc <= 0 for bc, _ in fp["blocks"]) or cnt != k or any(pl is None for pl in pls):
+                        ok, why = False, "block counts %r do not match the %d values read / undecodable block" % ([bc for bc, _ in fp["blocks"]], k)
+                    else:
+                        pos = 0
+                        for bi, ((bc, _), pl) in enumerate(zip(fp["blocks"], pls)):
+                            if pl != b"".join(C.unhex(h.spec[i]["canon"]) for i in L[pos:pos + bc]):
+                                ok, why = False, "block %d announces %d objects but its data is not their encodings" % (bi, bc)
+                                break
+                            pos += bc
+                alts.append((ok, why))
+            if not any(ok for ok, _ in alts):
+                what = "%s: %s" % (where, alts[0][1])
+        if what:
+            flagged.add(id(r))
+            violations.append({"impl_case": line, "what": what, "snapshot_case": "cr %s slice any %d" % (C.hx(r["pi"]["sink"][:ln]), len(lw) + 6)})
+    return 2 * len(q)
